@@ -183,6 +183,48 @@ func c14Atou32(s string) (uint32, error) {
 	return uint32(v), err
 }
 
+// The <ebs> field of a case is one excessive block size or a sequence a,b,...: the limits are configured the way
+// a process does it - starting from the package's initial state (re-established by two SetLimits calls with the
+// package default 3200000000, after which every limit-related variable has its initial value) SetLimits is called
+// once per element.  A single value is therefore the service's own configuration: fresh process, one call.
+// The limit that must be in force afterwards is the declared function of the LAST value only.
+const c14DefaultEBS = 3200000000
+
+func c14ParseLimits(s string) ([]uint32, error) {
+	var seq []uint32
+	for _, p := range strings.Split(s, ",") {
+		v, err := c14Atou32(p)
+		if err != nil {
+			return nil, err
+		}
+		seq = append(seq, v)
+	}
+	return seq, nil
+}
+
+func c14Configure(seq []uint32) uint32 {
+	wire.SetLimits(c14DefaultEBS)
+	wire.SetLimits(c14DefaultEBS)
+	for _, e := range seq {
+		wire.SetLimits(e)
+	}
+	return seq[len(seq)-1]
+}
+
+// c14DeclaredLimit: maxMessagePayload as declared for an excessive block size (uint32 arithmetic of the source)
+func c14DeclaredLimit(e uint32) uint32 { return ((e / 1000000) * 1024 * 1024) * 2 }
+
+// c14CapLimit: no type's declared payload limit exceeds the declared overall limit of the configuration
+func c14CapLimit(limit uint64, e uint32) uint64 {
+	if d := uint64(c14DeclaredLimit(e)); limit > d && limit > 10240 {
+		if d < 10240 {
+			return 10240
+		}
+		return d
+	}
+	return limit
+}
+
 // runCase executes one case input line against the implementation.
 func (r *c14run) runCase(input, class string) error {
 	f := strings.Split(input, " ")
@@ -191,11 +233,11 @@ func (r *c14run) runCase(input, class string) error {
 		return bad
 	}
 	pver, e1 := c14Atou32(f[1])
-	ebs, e2 := c14Atou32(f[2])
+	seq, e2 := c14ParseLimits(f[2])
 	if e1 != nil || e2 != nil {
 		return bad
 	}
-	wire.SetLimits(ebs)
+	ebs := c14Configure(seq)
 	enc := wire.BaseEncoding
 	switch f[0] {
 	case "L":
@@ -326,6 +368,9 @@ func (r *c14run) runCase(input, class string) error {
 		}
 		r.inflight(input)
 		limit := uint64(m0.MaxPayloadLength(pver))
+		if cmd == "reject" || cmd == "cfcheckpt" {
+			limit = c14CapLimit(limit, ebs) // their type limit IS the overall limit: use the declared one
+		}
 		var obs string
 		delta, st := c14Guard(func() {
 			rb := bytes.NewBuffer(append([]byte(nil), payload...))
@@ -377,6 +422,9 @@ func (r *c14run) runCase(input, class string) error {
 			if m0, err := wire.VerifMakeEmptyMessage(hcmd); err == nil {
 				if l := uint64(m0.MaxPayloadLength(pver)); l > limit {
 					limit = l
+				}
+				if hcmd == "reject" || hcmd == "cfcheckpt" {
+					limit = c14CapLimit(limit, ebs)
 				}
 			}
 		}
@@ -497,7 +545,7 @@ func (r *c14run) concurrent(g *c14gen, prod uint32) {
 	rounds := r.c.Pick(1500, 6000)
 	kinds := []string{"version", "headers", "getheaders", "inv", "addr", "ping", "pong", "reject", "feefilter", "verack"}
 	jobs := make([][]*job, workers)
-	wire.SetLimits(prod)
+	c14Configure([]uint32{prod})
 	for w := 0; w < workers; w++ {
 		for i := 0; i < per; i++ {
 			pver := g.pver()
@@ -611,6 +659,71 @@ func runC14(c *Ctx) error {
 		for _, pv := range c14Pvers {
 			for _, e := range []uint32{prod, 3200000000, 32000000, 1000000, 999999, 0, 4294967295} {
 				if err := run(fmt.Sprintf("L %d %d %s", pv, e, cmd)); err != nil {
+					return err
+				}
+			}
+		}
+	}
+	// 1c. the overall limit after SEQUENCES of SetLimits calls (a single value = fresh process + one call, the
+	// service's own configuration): the limit in force must be the declared function of the last value only
+	lvals := []uint32{c14DefaultEBS, prod, 32000000, 1000000, 0}
+	var seqs []string
+	for _, a := range lvals {
+		for _, b := range lvals {
+			seqs = append(seqs, fmt.Sprintf("%d,%d", a, b))
+		}
+	}
+	seqs = append(seqs, fmt.Sprintf("%d,%d,%d", 32000000, prod, prod), fmt.Sprintf("%d,%d,%d", prod, 1000000, 32000000))
+	for _, sq := range seqs {
+		for _, cmd := range []string{"reject", "cfcheckpt", "version", "block", "ping"} {
+			if err := run(fmt.Sprintf("L 70013 %s %s", sq, cmd)); err != nil {
+				return err
+			}
+		}
+	}
+	// 1d. hostile headers and string counts after such sequences: announced sizes between the limit of the
+	// previous configuration and the limit of the current one (both orders) - only the header / the count is
+	// sent, never the announced bytes.  Above the current limit: refused on the header, nothing allocated.
+	type cfg struct {
+		seq  string
+		prev uint32
+		cur  uint32
+	}
+	cfgs := []cfg{{fmt.Sprint(prod), c14DefaultEBS, prod}, {fmt.Sprint(32000000), c14DefaultEBS, 32000000}}
+	for _, a := range lvals {
+		for _, b := range lvals {
+			cfgs = append(cfgs, cfg{fmt.Sprintf("%d,%d", a, b), a, b})
+		}
+	}
+	for _, cf := range cfgs {
+		lp, lc := uint64(c14DeclaredLimit(cf.prev)), uint64(c14DeclaredLimit(cf.cur))
+		lo, hi := lp, lc
+		if lo > hi {
+			lo, hi = hi, lo
+		}
+		sizes := []uint64{lc + 1, lc, lo + 1, (lo + hi) / 2, hi, hi + 1, 2 << 30, 0xffffffff}
+		seen := map[uint64]bool{}
+		for _, sz := range sizes {
+			if sz > 0xffffffff || seen[sz] || (sz <= lc && sz > 300<<20) {
+				continue // (an announced size within the current limit is legitimately allocated: keep those small)
+			}
+			seen[sz] = true
+			for _, cmd := range []string{"reject", "cfcheckpt", "ping"} {
+				fr := c14Frame(uint32(wire.MainNet), []byte(cmd), g.bytesN(g.r.Intn(6)))
+				binary.LittleEndian.PutUint32(fr[16:20], uint32(sz))
+				if err := run(fmt.Sprintf("R 70013 %s %d %s", cf.seq, uint32(wire.MainNet), hex.EncodeToString(fr))); err != nil {
+					return err
+				}
+			}
+			cnt := c14Varint(sz)
+			p1 := append(append([]byte(nil), cnt...), g.bytesN(g.r.Intn(6))...)
+			p2 := append(append([]byte{2, 't', 'x', 0x10}, cnt...), g.bytesN(g.r.Intn(6))...)
+			for _, p := range [][]byte{p1, p2} {
+				if err := run(fmt.Sprintf("D 70013 %s reject %s", cf.seq, hex.EncodeToString(p))); err != nil {
+					return err
+				}
+				fr := c14Frame(uint32(wire.MainNet), []byte("reject"), p)
+				if err := run(fmt.Sprintf("R 70013 %s %d %s", cf.seq, uint32(wire.MainNet), hex.EncodeToString(fr))); err != nil {
 					return err
 				}
 			}
